@@ -45,7 +45,7 @@ ASSUMPTIONS = ["integer time index (positions/labels); datetime/period indexes o
                "a forecaster is modelled as a state machine whose operations are functions of (state, arguments) and may raise; nondeterministic forecasters and timing columns are not modelled",
                "refit rows are compared with a FRESH forecaster under the explicit hypothesis that fit does not depend on the earlier state (FitResets)",
                "observations = the y and X handed to fit/update; the exogenous rows handed to predict are by design future-dated and are not counted as leaked observations"]
-RULE = ("exhaustive small scope over splitter kind x fh x window x step x strategy x X/no X x return_data x metric for n<=9 (quick: seed-rotated slice) "
+RULE = ("exhaustive small scope over splitter kind x fh x window x step x strategy x X/no X x return_data for 3<=n<=7 (quick: seed-rotated 1/23 slice; n=8,9 sampled 2/5 in thorough), metric rotated, "
         "+ random series up to n=120 with gapped / shifted labels + failing-forecaster histories + malformed arguments + direct _split calls; "
         "distinct by driver line; non-trivial = evaluate returned a table with at least one row")
 LEVEL_TEXT = ("Lean 4 theorems, for all series, splitter configurations, both strategies, all forecaster machines and all metrics, about an executable model of evaluate(): "
@@ -606,8 +606,8 @@ def _mk(rng, cv, n, strat, met, rd, x, lab="zero", fp=None, fail=None):
 def gen_cases(tier, rng):
     quick = tier == "quick"
     cases = []
-    # ---- exhaustive small scope (fixed order); quick = seed-rotated 1/24 slice
-    mod = 24
+    # ---- exhaustive small scope (fixed order); quick = seed-rotated 1/23 slice; thorough = all of n<=7, 2/5 of n=8,9
+    mod = 23
     rot = rng.randrange(mod)
     cnt = 0
     for n in range(3, 10):
@@ -630,7 +630,7 @@ def gen_cases(tier, rng):
                             cnt += 1
                             if quick and cnt % mod != rot:
                                 continue
-                            if not quick and cnt % 2 != rot % 2 and n > 6:
+                            if not quick and n > 7 and cnt % 5 not in (rot % 5, (rot + 2) % 5):
                                 continue
                             if cv[0] in ("s", "e") and cv[2] + max(fh) > n and cnt % 5:
                                 continue             # mostly feasible configurations
@@ -710,11 +710,11 @@ def gen_cases(tier, rng):
         yl = _labels(rng, n, rng.choice(["zero", "shift", "gap"]))
         fh = sorted(rng.sample(range(1, 6), rng.randrange(1, 4)))
         r = rng.random()
-        if r < 0.6:
+        if r < 0.8:
             cut = rng.randrange(0, n)
             train = list(range(max(0, cut - rng.randrange(0, 4)), cut + 1))
             test = [cut + h for h in fh]
-        elif r < 0.8:
+        elif r < 0.9:
             train = sorted(rng.sample(range(-n, n + 2), rng.randrange(0, min(4, n) + 1)))
             test = sorted(rng.sample(range(0, n + 2), rng.randrange(0, 3)))
         else:
